@@ -190,12 +190,20 @@ def native_confirm(task, viol):
     if kind == 'uninit_output':
         a = native_run(task.text, task.entry, viol['inputs'], env_extra={'VP_POISON': '0x00'})
         b = native_run(task.text, task.entry, viol['inputs'], env_extra={'VP_POISON': '0xA5'})
-        oa = [o for o in a['outs'] if o[0].startswith('bytes')]
-        ob = [o for o in b['outs'] if o[0].startswith('bytes')]
+        oa = [o for o in a['outs'] if o[0].startswith('bytes') or o[0] == 'file']
+        ob = [o for o in b['outs'] if o[0].startswith('bytes') or o[0] == 'file']
         if oa != ob:
             return True, 'emitted bytes differ between heap poison 0x00 and 0xA5: %s vs %s' % (
                 bytes(oa[0][1]).hex()[:160] if oa else '', bytes(ob[0][1]).hex()[:160] if ob else '')
-        return False, 'outputs identical under two heap poisons'
+        # never-written automatic variables: two builds that pre-fill every local with a pattern / with zero
+        a = native_run(task.text, task.entry, viol['inputs'], san='stackpat')
+        b = native_run(task.text, task.entry, viol['inputs'], san='stackzero')
+        oa = [o for o in a['outs'] if o[0].startswith('bytes') or o[0] == 'file']
+        ob = [o for o in b['outs'] if o[0].startswith('bytes') or o[0] == 'file']
+        if oa != ob and oa and ob:
+            d = [i for i, (x, y) in enumerate(zip(oa[0][1], ob[0][1])) if x != y][:12]
+            return True, 'emitted bytes differ between a build with pattern-initialised and one with zero-initialised automatic variables (offsets %s)' % d
+        return False, 'outputs identical under two heap poisons and two stack initialisations'
     if kind == 'stale_dependence':
         m = re.search(r'field "([^"]+)"', viol['msg'])
         fld = m.group(1) if m else ''
@@ -396,6 +404,10 @@ def run_property(pid, tasks, tier, seed, meta):
     t0 = time.time()
     os.makedirs(EVID, exist_ok=True)
     jobs = int(os.environ.get('VERIF_JOBS', '16'))
+    if 'VERIF_TASK_HARD_S' not in os.environ:
+        # hard limit per harness process (a solver call that does not come back is not waited for): the longest quick harness
+        # takes under a minute, the longest thorough one about ten
+        run.HARD_TASK_S = 600 if tier == 'quick' else 2400
     results = run.pmap(_run_task, [(t,) for t in tasks], jobs)
     known = load_known(pid)
     by_tid = {t.tid: t for t in tasks}
